@@ -56,7 +56,7 @@ var c14Corpus = []string{
 // collision scenarios for the scheduler: queries that drive many shared tables at once
 var c14SchedQueries = []string{
 	`a:(x OR y) AND NOT b:[1 TO 5] AND c:w*`,
-	`+p:>=2 AND -q:"r s" AND u:/v.w/`,
+	`+p:>=2 AND -q:"r s" AND u:/v.w/ AND (zz:[* TO 9] OR yy:{k TO m})`,
 	`a:(x OR y)`,
 }
 
@@ -306,7 +306,9 @@ func init() {
 			for _, a := range textOps {
 				for _, b := range textOps {
 					us = append(us, core.Unit{Name: fmt.Sprintf("explore|1|full|0|0|1|%s@0|%s@1", a, b), Weight: 3})
-					us = append(us, core.Unit{Name: fmt.Sprintf("explore|1|full|0|0|1|%s@1|%s@0|%s@0", a, b, a), Weight: 4})
+					if tier == "thorough" || (strings.HasPrefix(a, "To") && strings.HasPrefix(b, "To")) {
+						us = append(us, core.Unit{Name: fmt.Sprintf("explore|1|full|0|0|1|%s@1|%s@0|%s@0", a, b, a), Weight: 4})
+					}
 				}
 			}
 			trip := [][]string{{"ToPostgres", "ToParam", "Parse"}, {"Render", "RenderParam", "String"}, {"Marshal", "Unmarshal", "Validate"}}
@@ -360,7 +362,7 @@ func init() {
 		},
 		Deadline: func(tier string) int {
 			if tier == "thorough" {
-				return 3300
+				return 1000
 			}
 			return 420
 		},
@@ -442,6 +444,9 @@ func c14Eval(c core.Case) (res core.Result) {
 		before := globalsSnapshot()
 		mk, results := c14Bodies(ops, query)
 		r := runSchedule(mk, first, plan)
+		if os.Getenv("VERIF_C14_DEBUG") != "" {
+			fmt.Fprintf(os.Stderr, "steps=%v segs=%+v results=%q\n", r.steps, r.segs, *results)
+		}
 		res.Nontrivial = true
 		if v := c14Judge(ops, query, r, *results, seqRef, before, true); v != nil {
 			res.Obs = append(res.Obs, *v)
@@ -653,14 +658,37 @@ func c14Explore(w *core.Worker, ops []string, query string, bound int, gran stri
 	// the first schedule of the scenario is run twice and must take identical paths
 	var firstHash []uint64
 	e := &explorer{bound: bound, shardIdx: shardIdx, shardOf: shardOf, coarse: gran != "full", interesting: pointFilter(gran)}
+	var preludeObs *core.Obs
 	e.bodies = func() []func() {
+		// every schedule starts from the same history: the operations run once sequentially first
+		// (if the library keeps state between calls, the explored executions would otherwise depend
+		// on which schedule happened to run before). The prelude's own results are checked: a wrong
+		// one means an earlier schedule left the library in a state that changes later results.
+		if preludeObs == nil {
+			pre := c14SeqRefs(ops, query)
+			for i := range pre {
+				if pre[i] != seqRef[i] {
+					preludeObs = &core.Obs{Clause: "concurrent", Class: "later-sequential-call-differs " + strings.SplitN(ops[i], "@", 2)[0],
+						Observed: "after the previous schedule, a sequential call of " + ops[i] + " returned " + trunc(pre[i], 300),
+						Expected: "its result in a fresh sequence: " + trunc(seqRef[i], 300)}
+					break
+				}
+			}
+		}
 		b, r := c14Bodies(ops, query)
 		results = r
 		return b
 	}
 	count := int64(0)
+	var prevPlan string
 	e.check = func(r *schedRun, first int, plan []switchAt) bool {
 		count++
+		if preludeObs != nil {
+			violated = true
+			w.Record(core.Case{Kind: "sched", In: core.BStr(scenario), Aux: core.BStr(prevPlan)}, *preludeObs)
+			return false
+		}
+		prevPlan = planString(first, plan)
 		if firstHash == nil {
 			firstHash = append([]uint64{}, r.hash...)
 			b2, _ := c14Bodies(ops, query)
@@ -680,7 +708,7 @@ func c14Explore(w *core.Worker, ops []string, query string, bound int, gran stri
 		full := count%256 == 1
 		if v := c14Judge(ops, query, r, *results, seqRef, before, full); v != nil {
 			violated = true
-			w.Do(core.Case{Kind: "sched", In: core.BStr(scenario), Aux: core.BStr(planString(first, plan))})
+			w.Record(core.Case{Kind: "sched", In: core.BStr(scenario), Aux: core.BStr(planString(first, plan))}, *v)
 			return false
 		}
 		return true
